@@ -1,4 +1,5 @@
 """C11 — applicability checks are exact and enforced before any obligation is emitted."""
+import re
 from ..facts import AnalysisGap, callee, callee_generic, local_id_of, local_of, pat_bindings, strip, walk
 from .. import flow, hq, sym, tasks
 
@@ -147,6 +148,13 @@ def rule_enforcement(ctx):
         ifn = [n for n in hq.ancestors(pm, pushes[0]) if n.get("k") == "If"][0]
         ovl = local_id_of(strip(ifn["cond"])["recv"]) if strip(ifn["cond"]).get("k") == "MethodCall" else None
         s = repr(flow.summ(lets[ovl]["init"])) if ovl in lets else ""
+        # a sub-expression hoisted into a `let` before the loop (say the output predicates) is read through that local
+        seen_ = {ovl}
+        for _ in range(2):
+            for lid_ in [int(x_) for x_ in re.findall(r"\('local', '\w+', (\d+)\)", s)]:
+                if lid_ in lets and lid_ not in seen_ and "init" in lets[lid_]:
+                    seen_.add(lid_)
+                    s += " where " + repr(flow.summ(lets[lid_]["init"]))
         ok = ok and "UserGuide::output_predicates" in s and "contains" in s and "AnnotatedFormula::predicates" in s
         detail += "; overlap = %s" % s[:160]
     ctx.add("FLOW-DOM", "inline:user-guide-assumption", ok, site, "user-guide assumptions with an output predicate are refused, only the others are kept: " + detail)
